@@ -48,7 +48,7 @@ TRUSTED = ['harness/props/c04.py: wrappers around thresha.pseudorandom_share, th
 P64 = 18446744073709551557
 FIELDS = [('P', 2), ('P', 3), ('P', 5), ('P', 7), ('P', 11), ('P', 101), ('P', P64),
           ('B', 283), ('B', 7), ('B', 11), ('X', 3, 2), ('X', 3, 3), ('X', 5, 2)]
-CFGS = [(1, 0), (2, 0), (3, 0), (3, 1), (5, 0), (5, 1), (5, 2)]
+CFGS = [(1, 0), (2, 0), (3, 0), (3, 1), (4, 1), (5, 0), (5, 1), (5, 2)]   # (4,1): m a power of q=2 (lifting exponent boundary)
 
 
 def fname(fd):
